@@ -2,6 +2,7 @@ package main
 
 import (
 	"fmt"
+	"strings"
 	"time"
 
 	astisub "github.com/asticode/go-astisub"
@@ -18,6 +19,10 @@ var linePool = [][][]string{
 	{},
 	{{""}},
 	{{"a", ""}},
+	// an empty line is part of the text: "a", "a - " and " - a" are three different texts
+	{{"a"}, {""}},
+	{{""}, {"a"}},
+	{{"a"}, {}},
 }
 
 type span struct{ s, e int64 }
@@ -405,6 +410,9 @@ func init() {
 			// few texts, clustered times so that touching is frequent
 			nt := 1 + r.intn(3)
 			pool := []int{0, 2, 3, 4, 6, 7}
+			if r.chance(1, 3) { // texts that differ only by an empty line or an empty run
+				pool = []int{0, 9, 10, 11, 8, 0}
+			}
 			for j := range xs {
 				xs[j].lines = linePool[pool[r.intn(nt*2)%len(pool)]]
 				if r.chance(2, 3) {
@@ -520,8 +528,9 @@ func init() {
 	streams["ops.optimize"] = stream{exec: func(a []string) string {
 		g, _ := decGraph(a)
 		s := g.build()
+		before := cueShot(s)
 		s.Optimize()
-		return observeGraph(s).enc()
+		return observeGraph(s).enc() + fmt.Sprintf(" same=%v", before == cueShot(s))
 	}, gen: func(c *ctx) {
 		r := newRng(c.seed, "ops.optimize")
 		nr := 40000
@@ -534,6 +543,23 @@ func init() {
 			c.count("random")
 		}
 	}}
+}
+
+// cueShot: everything of the cues that operations on styles and regions must leave alone (times, numbers,
+// voices, run texts and in-cue instants)
+func cueShot(s *astisub.Subtitles) string {
+	var b strings.Builder
+	for _, it := range s.Items {
+		fmt.Fprintf(&b, "{%d %d %d", it.StartAt, it.EndAt, it.Index)
+		for _, l := range it.Lines {
+			b.WriteString("[" + l.VoiceName + "]")
+			for _, r := range l.Items {
+				fmt.Fprintf(&b, "%q@%d|", r.Text, r.StartAt)
+			}
+		}
+		b.WriteString("}")
+	}
+	return b.String()
 }
 
 func sortByStart(xs []mItem) {
